@@ -64,6 +64,11 @@ CHECKS = {
          "Every model of the alphabet (owner type as tuple or table with two fields over 13 descriptors, second type of every kind, cross-application type with distinct / colliding names, dotted nested type) is rendered as whole-model and per-application diagram: exactly one class per covered type with a unique alias, every field listed with a matching type marker, exactly one relationship line per referring field to a drawn type and none otherwise. Map iteration order is pinned (C19 varies it).",
          "coverage = tuples, tables, primitive aliases, enums; self references not asserted; field types compared by kind marker",
          "DESIGN.md §4 C15"),
+ "C16": ("model_checking",
+         "explicit-state BFS over relational schemas (states) and edit operations (transitions) with canonical-state de-duplication; the real create/delta generators run on every state, edge and 2-chain; a reference DDL interpreter executes the emitted SQL into a catalog (differential oracle old+delta == new)",
+         "States are schemas of <=2 (thorough 3) base tables expanded by 17 kinds of edit to depth 1-2; for every state the creation script must execute (every table once, after everything it references) and define exactly the schema's columns, types, keys and foreign keys; for every edge, executing the old creation script and then the delta must leave every table of the new version exactly as the new creation script defines it, the identity delta must be empty, and 2-chains whose steps are individually sound must compose. Tables spread over two files (also starting on the same line) are checked for the creation script.",
+         "reference interpreter implements the emitted DDL subset with PostgreSQL semantics; unknown statements are an ORACLE-GAP; column order not compared, keys compared as sets",
+         "DESIGN.md §4 C16"),
  "C17": ("exploration",
          "bounded-exhaustive model set (corpus, generated families, return-payload sweep, complete deep statement trees) through the real relmod.Normalize, compared row-for-row (as multisets) with an independent census of the module; repeated run compared",
          "For every model the relational schema must either be refused with an error or contain exactly the census rows: applications, mixins, endpoints, events, parameters (index, location, type, optionality), statements with their position path, types, table keys, fields (type, optionality, constraints), enums, aliases, views, annotations and tags of every element; a second run must give the same relations.",
